@@ -399,19 +399,23 @@ Proof.
 Qed.
 
 (* ---- C13 contained ----
-   After a callback of module m has panicked, no dispatched event produces any record of m
-   (no message handler, no wake-up, no task step, no send) until an event that restarts m --
+   After a callback of module m has panicked, no start-up stage and no dispatched event produces
+   any record of m (no handler, no wake-up, no task step, no send) until an event that restarts m --
    which only exists if m itself had requested shutdow_and_restart before it panicked. *)
-Theorem contained sc m pre e post ev :
-  trace sc = pre ++ e :: post -> dead_after m pre = true -> starts m e = false -> e_kind e = KLoop ev ->
+Theorem contained sc m pre e post :
+  trace sc = pre ++ e :: post -> dead_after m pre = true -> starts m e = false -> is_end e = false ->
   forallb (fun i => negb (of_mod m i)) (e_items e) = true.
 Proof.
   intros E Hd Hst Hk.
   destruct (trace_cases sc pre e post E) as [(w1 & w2 & HG & Hs)|(w & tr & now & ms1 & m1 & ms2 & _ & _ & _ & _ & ->)]; [|discriminate].
   destruct (gen_PI sc w1 pre HG) as [_ Hdead]. specialize (Hdead m Hd).
   destruct (gen_WI sc w1 pre HG m) as [(_ & _ & Hshut) _].
-  destruct Hs as [stage m1 w Hfresh Hactive|w|w t ev0 f Hf]; try discriminate.
-  unfold loop_rec in *. cbn [snd e_items e_kind] in *. injection Hk as ->.
+  destruct Hs as [stage m1 w Hfresh Hactive|w|w t ev f Hf].
+  { (* a start-up stage: the sweep skips inactive modules, so it is a stage of another module *)
+    unfold start_rec. cbn [snd e_items]. destruct (N.eq_dec m1 m) as [->|Hn]; [congruence|].
+    apply (own_not_of_mod m1 m); [apply around_own, start_cb_ok|exact Hn]. }
+  { reflexivity. }
+  unfold loop_rec in *. cbn [snd e_items e_kind] in *.
   assert (Hdn : forall fcb, (forall s, active (w_mod (x_w s) m) = false -> fcb s = s) ->
                  snd (around sc t m fcb (set_fes w f)) = []).
   { intros fcb Hid. unfold around. rewrite Hid by (cbn [x_w]; rewrite activate_active; exact Hdead). cbn [x_w x_log app].
